@@ -167,7 +167,7 @@ def run_tlc(
     if depth_first:
         cmd.append("-Dtlc2.tool.queue.IStateQueue=StateDeque")
     # every spec dir may reference spec/common
-    libpath = os.pathsep.join([str(SPEC / "common"), str(module_dir)])
+    libpath = os.pathsep.join([str(module_dir), str(SPEC / "common")] + [str(d) for d in sorted(SPEC.iterdir()) if d.is_dir() and d != module_dir and d.name != "common"])
     cmd += [f"-DTLA-Library={libpath}", "-cp", _tlc_classpath(), "tlc2.TLC"]
     cmd += ["-metadir", str(meta), "-noGenerateSpecTE"]
     cmd += ["-workers", str(workers)]
